@@ -207,6 +207,10 @@ fn run_queries(script: &str, qs: &[GenQuery]) -> Result<Vec<bashdrv::Reply>, Out
 }
 
 fn judge_bash(g: &G, v: &Vocab, qbytes: &[u8], how: &str) -> Outcome {
+    judge_bash_with(g, v, qbytes, how, vec![])
+}
+
+fn judge_bash_with(g: &G, v: &Vocab, qbytes: &[u8], how: &str, extra: Vec<GenQuery>) -> Outcome {
     let g2 = without_fallbacks(g);
     let (t1, t2) = (print_minimal(g), print_minimal(&g2));
     let Ok(b1) = model::denote(g, "bash") else { return Outcome::Skip("model".into()) };
@@ -228,6 +232,7 @@ fn judge_bash(g: &G, v: &Vocab, qbytes: &[u8], how: &str) -> Outcome {
     // command lines from the `|` grammar: matching must be the same in both
     let mut s = Src::new(qbytes);
     let mut qs = gen_queries(&mut s, &b2, &cmds, 8);
+    qs.extend(extra);
     qs.retain(|q| !interp::truncated_region(&b2, &cmds, &q.words));
     let mut seen = BTreeSet::new();
     qs.retain(|q| seen.insert((q.words.clone(), q.cur.clone())));
@@ -313,7 +318,20 @@ fn case_bash(bytes: &[u8]) -> Outcome {
         how = "none";
         g.stmts.pop();
     }
-    judge_bash(&g, &v, qb, how)
+    // two within-word expressions of one shape whose alternatives are split over the || levels differently
+    let mut extra = vec![];
+    if sx.chance(1, 2) && v.word_lits.len() >= 3 && !g.exprs().any(|e| e.has(&|x| matches!(x, E::Lit { text, .. } if text == "lv"))) {
+        let l = |t: &String| E::Lit { text: t.clone(), descr: v.descr_of.get(t).cloned().flatten() };
+        let (a, b, c3) = (l(&v.word_lits[0]), l(&v.word_lits[1]), l(&v.word_lits[2]));
+        let w1 = E::Word(vec![lit("--lx="), E::Fb(vec![E::Alt(vec![a.clone(), b.clone()]), c3.clone()])]);
+        let w2 = E::Word(vec![lit("--ly="), E::Fb(vec![c3, E::Alt(vec![b, a])])]);
+        g.stmts.push(Stmt::Call { name: "cmd".into(), e: E::Seq(vec![lit("lv"), E::Alt(vec![w1, w2]), E::Opt(Box::new(lit("tl")))]) });
+        for cur in ["--lx=", "--ly=", "--l"] {
+            extra.push(GenQuery { words: vec!["lv".into()], cur: cur.to_string(), kind: "level_split" });
+        }
+        how = "same shape, different split over || levels";
+    }
+    judge_bash_with(&g, &v, qb, how, extra)
 }
 
 fn case_regress(doc: &serde_json::Value) -> Outcome {
